@@ -774,11 +774,20 @@ def concurrency(ctx, sats, judge, spy, mode, budget, scale=1):
         ctx.bump("store_statement", {"e": "epoch at the node", "n": "get_last_an_time(epoch)"}.get(sat.branch, "?"))
         # --- two get_orbit_number calls: single pre-emption of A by a complete B
         ks = set(own) | {n}                                     # ALL pre-emption points of the own frame
-        if mode == "full" and (lead or thorough):
-            ks |= set(firsts)
-        rest = [k for k in range(n + 1) if k not in ks]
-        ks |= set(sample(rng, rest, ((1000 if lead and mode == "full" else 150) if thorough else 20) * scale))
         for k in sorted(ks):
+            go(sat, [qa, qb], [[0, k], [1, INF]], "orbit|orbit single pre-emption")
+        # --- three calls: A pre-empted, B complete, A a few more lines, C complete, A resumes
+        #     (a value A stores late is read by a call that finds the cache complete)
+        triple = [[[0, k], [1, INF], [0, m], [2, INF], [0, INF]] for k in own for m in (1, 2, 3)]
+        if not lead:
+            triple = [triple[i] for i in sample(rng, range(len(triple)), (40 if thorough else 20) * scale)]
+        for plan in triple:
+            go(sat, [qa, qb, qc], plan, "orbit|orbit|orbit A^k B* A^m C* A*")
+        # --- single pre-emption below the own frame (scratch state of the propagator, the node search)
+        more = set(firsts) if mode == "full" and (lead or thorough) else set()
+        rest = [k for k in range(n + 1) if k not in ks and k not in more]
+        more |= set(sample(rng, rest, ((1000 if lead and mode == "full" else 150) if thorough else 20) * scale))
+        for k in sorted(more):
             go(sat, [qa, qb], [[0, k], [1, INF]], "orbit|orbit single pre-emption")
         # --- two pre-emptions: A^k B^m A* B*
         ms = set(range(1, 6)) | (set(own) if thorough and lead else set(sample(rng, own[5:], 4 * scale)))
@@ -787,13 +796,6 @@ def concurrency(ctx, sats, judge, spy, mode, budget, scale=1):
             double = [double[i] for i in sample(rng, range(len(double)), (100 if thorough else 30) * scale)]
         for plan in double:
             go(sat, [qa, qb], plan, "orbit|orbit two pre-emptions")
-        # --- three calls: A pre-empted, B complete, A a few more lines, C complete, A resumes
-        #     (a value A stores late is read by a call that finds the cache complete)
-        triple = [[[0, k], [1, INF], [0, m], [2, INF], [0, INF]] for k in own for m in (1, 2, 3)]
-        if not lead:
-            triple = [triple[i] for i in sample(rng, range(len(triple)), (40 if thorough else 20) * scale)]
-        for plan in triple:
-            go(sat, [qa, qb, qc], plan, "orbit|orbit|orbit A^k B* A^m C* A*")
         # --- get_orbit_number against every other kind of query, both roles
         for q in [q for q in pool if not is_orbit(q)]:
             kk = own if thorough and lead else (own[::2] if lead or thorough else sample(rng, own, 5 * scale))
@@ -808,7 +810,7 @@ def concurrency(ctx, sats, judge, spy, mode, budget, scale=1):
                 go(sat, [qa, q], [[1, k], [0, INF]], q["m"] + " pre-empted by orbit")
         # --- sampled multi-pre-emption schedules; 3 threads in the thorough tier; sometimes on a warmed object
         nthreads = 3 if thorough else 2
-        for _ in range(ctx.size(25, 200) * scale):
+        for _ in range(ctx.size(25, 400) * scale):
             qs = [orbit_query(rng) if rng.random() < 0.7 else rng.choice(pool) for _ in range(nthreads)]
             if any(sat.fresh(q) is None for q in qs):
                 continue
